@@ -166,6 +166,27 @@ def run(tier, seed, replay=None):
         cid = "d%04d" % i
         cases.append({"id": cid, "settings": settings, "history": [{"op": "root", "schema": doc}],
                       "opts": {"has_impl": True}})
+    # replaced / converted types with every subset of declared impls, used as untagged variant, alias and member
+    import itertools as _it
+    k_ = 0
+    for impls in [list(c) for n_ in range(4) for c in _it.combinations(["FromStr", "Display", "Default"], n_)]:
+        for how in ("replace", "convert"):
+            doc = {"definitions": {
+                "Loc": {"type": "string", "format": "custom-loc"},
+                "Target": {"oneOf": [{"$ref": "#/definitions/Loc"}, {"type": "integer"}]},
+                "Both": {"oneOf": [{"$ref": "#/definitions/Loc"}, {"type": "string", "format": "uuid"}]},
+                "AliasOfLoc": {"$ref": "#/definitions/Loc"},
+                "Holder": {"type": "object", "properties": {"l": {"$ref": "#/definitions/Loc"},
+                                                            "t": {"$ref": "#/definitions/Target"}}}}}
+            st = {"struct_builder": k_ % 2 == 0}
+            if how == "replace":
+                st["replacements"] = [{"name": "Loc", "type": "::vrt::support::ReplStr", "impls": impls}]
+            else:
+                st["conversions"] = [{"schema": {"type": "string", "format": "custom-loc"}, "type": "::vrt::support::ReplStr",
+                                      "impls": impls}]
+            cases.append({"id": "imp%03d" % k_, "settings": st, "history": [{"op": "root", "schema": doc}],
+                          "opts": {"has_impl": True}})
+            k_ += 1
     for name, doc in workloads.load_fixtures():
         st = {"struct_builder": True}
         if name == "x-rust-type":
